@@ -107,7 +107,11 @@ impl<'c> SetCookie<'c> {
                 },
                 Some(1) => {
                     r.consume("=").ok_or_else(|| format!("Invalid `Max-Age`: No `=` found"))?;
-                    let value = r.read_until(b"; ").iter().fold(0, |secs, d| 10*secs + (*d - b'0') as u64);
+                    /* digits only, and without overflow */
+                    let value = r.read_until(b"; ").iter().try_fold(0u64, |secs, d| match d {
+                        b'0'..=b'9' => secs.checked_mul(10)?.checked_add((*d - b'0') as u64),
+                        _ => None
+                    }).ok_or_else(|| format!("Invalid `Max-Age`: not a number of seconds"))?;
                     this.MaxAge = Some(value)
                 }
                 Some(2) => {
